@@ -708,7 +708,9 @@ class Ctx(object):
         self.axioms = []
         self.notes = []
         self.root_candidates = []
+        self.root_defs = []
         self.roots_used = 0
+        self.formal = 0
 
     # -- solver helpers ----------------------------------------------------
     def _check(self, *extra, timeout_ms=None):
@@ -850,6 +852,14 @@ class Ctx(object):
         key = t.get_id()
         if key in self.sqrt_memo:
             return SReal(self.sqrt_memo[key][1])
+        for cand, sq in self.root_defs:
+            # registered root with its defining square (cand >= 0 and
+            # cand*cand == sq are in the path condition): formal identity
+            from vf.zdiff import formally_equal
+            if formally_equal(t, sq):
+                self.sqrt_memo[key] = (t, cand)
+                self.roots_used += 1
+                return SReal(cand)
         for cand in self.root_candidates:
             # registered non-negative root: justified by a solver query
             r, _ = solve(list(self.pc) + [t != cand * cand], 3000)
@@ -897,6 +907,43 @@ class Ctx(object):
         c = to_bool(claim)
         t0 = time.time()
         asserts = list(self.pc) + list(extra) + [z3.Not(c)]
+        r, model = solve(asserts, timeout_ms)
+        self.stats.solver_s += time.time() - t0
+        self.stats.queries[r] += 1
+        return r, model
+
+    def register_root(self, cand, sq):
+        """cand is the non-negative root of sq (asserted here)"""
+        self.add(cand >= 0)
+        self.add(cand * cand == sq)
+        self.root_defs.append((cand, sq))
+
+    def prove_eqs(self, pairs, timeout_ms=30000, guard=None):
+        """claim: guard => And(a == b for a, b in pairs).  First tries z3's
+        sum-of-monomials normaliser on the cleared-denominator difference
+        (a formal identity of rational functions over the path's atoms; all
+        divisors on the path are non-zero by construction), then the full
+        solver query on the cleared form."""
+        from vf.zdiff import clear_div, _num
+        t0 = time.time()
+        residual = []
+        for a, b in pairs:
+            an, ad = clear_div(to_real(a))
+            bn, bd = clear_div(to_real(b))
+            d = z3.simplify(an * bd - bn * ad, som=True)
+            n = _num(d)
+            if n is not None and n == 0:
+                continue
+            residual.append(d != 0)
+        if not residual:
+            self.stats.solver_s += time.time() - t0
+            self.stats.queries["unsat"] += 1
+            self.formal += 1
+            return "unsat", None
+        asserts = list(self.pc)
+        if guard is not None:
+            asserts.append(to_bool(guard))
+        asserts.append(z3.Or(*residual))
         r, model = solve(asserts, timeout_ms)
         self.stats.solver_s += time.time() - t0
         self.stats.queries[r] += 1
